@@ -99,6 +99,19 @@ class SBytes(object):
         return "<SBytes len=%s>" % (self.length,)
 
 
+class SHash(object):
+    """a fixed-length digest as a value of an uninterpreted sort: supports only ==, != and truthiness.
+    (Much cheaper for the solver than a 32-character string when only identity of hashes matters.)"""
+    SORT = z3.DeclareSort("Digest")
+
+    def __init__(self, term, nbytes=32):
+        self.term = term
+        self.nbytes = nbytes
+
+    def __repr__(self):
+        return "<SHash %s>" % self.term
+
+
 class SList(object):
     """list with symbolic length: elements elem(i) for 0 <= i < length.
     `elem` is a python callable index(z3 Int) -> value (built by the contract)."""
